@@ -119,6 +119,7 @@ func totpSuspects(r *ev.Run) {
 func c04(r *ev.Run, pairMode bool) {
 	installFuse()
 	defer totpSuspects(r)
+	r.OnWedge(func() { totpSuspects(r) })
 	scen := "totp-validate"
 	r.Scenario(scen, func(raw []byte) (string, string) {
 		c := unjson[c04Case](raw)
